@@ -284,3 +284,16 @@ Theorem C12_held_handle_resurrects_reverted_write :
   end.
 Proof. exact held_handle_resurrects_reverted_write. Qed.
 Print Assumptions C12_held_handle_resurrects_reverted_write.
+
+(** StateDB.updateStorage with a fault ([update_storage]: one snapshot of the account buffer
+    before the loop over the cached storages; per storage the update fails, or succeeds clean,
+    or succeeds dirty and puts the account entry with the new storage root).  It never panics,
+    fails exactly when one storage fails (in whatever order the map is walked), and a failed
+    call leaves the account buffer as before the call: same log, same revision, same reads. *)
+Theorem C12_failed_update_restores : forall (b : sbuf N) l,
+  wf b ->
+  exists b' ok, update_storage b l = Ok (b', ok) /\ wf b' /\
+    (ok = false <-> Exists (fun x => snd x = None) l) /\
+    (ok = false -> entries b' = entries b /\ next_idx b' = next_idx b /\ forall k, sb_get b' k = sb_get b k).
+Proof. intros b l. exact (failed_update_restores b l). Qed.
+Print Assumptions C12_failed_update_restores.
